@@ -922,3 +922,59 @@ def redate_moves_the_whole_series(K, cls, nv, which):
     K.instantiate(t - move)
     K.ensure("value at t is the value that was at t - move", K.cell_eq(V(K, ns, nd, t, c), V(K, start, old, t - move, c)))
     K.ensure("RI", RI(K, s, nv, cls))
+
+
+# ------------------------------------------------------------------------------ number of variants
+@contract("C10", targets=[P + "Series.alter_num_variants", P + "Series.expand_num_variants", P + "Series.shrink_num_variants", P + "Series.extract_variants"],
+          instances=[(CLS[0], nv, new, how) for nv in (1, 2, 3) for new in (1, 2, 3) for how in ("alter", "direct") if not (how == "direct" and False)], opts={"max_paths": 2000})
+def changing_the_number_of_variants(K, cls, nv, new, how):
+    """alter_num_variants(n): the first min(old, n) variants keep their values period by period, added variants are copies
+    of the last existing one, surplus variants are dropped; the periods do not change.  Calling expand/shrink directly
+    with the current number is a no-op."""
+    s, start, data = mk_series(K, "s", cls, nv)
+    old = K.snapshot(data)
+    if how == "alter":
+        K.method(s, "alter_num_variants", new)
+    elif new >= nv:
+        K.method(s, "expand_num_variants", new)
+    else:
+        K.method(s, "shrink_num_variants", new)
+    if how == "direct" and new == nv:
+        K.method(s, "shrink_num_variants", new)        # both directions with the current number
+    ns, nd = state(K, s)
+    K.ensure("number of variants", K.shape(nd)[1] == new)
+    K.ensure("same periods", K.And(ns == start, K.shape(nd)[0] == K.shape(old)[0]))
+    t = K.int("t", *[x + d for x, d in zip(ser(K, cls), (-5, 45))])
+    K.instantiate(t)
+    for c in range(new):
+        src = min(c, nv - 1)
+        K.ensure(f"variant {c}: values of old variant {src}", K.cell_eq(V(K, ns, nd, t, c), V(K, start, old, t, src)))
+    if new < nv or how == "alter":
+        pass
+    e = K.method(s, "extract_variants", (new - 1, 0))
+    es, ed = state(K, s)
+    K.ensure("extract_variants keeps the listed variants in the listed order", K.And(K.shape(ed)[1] == 2, K.cell_eq(V(K, es, ed, t, 0), V(K, start, old, t, min(new - 1, nv - 1))),
+                                                                                        K.cell_eq(V(K, es, ed, t, 1), V(K, start, old, t, 0))))
+
+
+# ------------------------------------------------------------------------------ reflected and unary operators
+@contract("C10", targets=[P + "Series.__rsub__", P + "Series.__rtruediv__", P + "Series.__sub__", P + "Series.__truediv__", P + "Series.__abs__", P + "Series.abs", P + "Series.__pos__",
+                          P + "Series.apply"], instances=[(CLS[0], n) for n in NV], opts={"max_paths": 3000})
+def reflected_and_unary_operators(K, cls, nv):
+    """number (op) series and the unary operators act value by value on the same periods, return a new series and leave
+    the operand as it was."""
+    x, xs, xd = mk_series(K, "x", cls, nv)
+    k = K.real("k", nonzero=True)
+    t, c = generic_cell(K, cls, nv)
+    K.instantiate(t)
+    a = V(K, xs, xd, t, c)
+    av = K.cell_val(a)
+    cases = [("k-x", K.binop("-", k, x), lambda v: k - v, None), ("x-k", K.binop("-", x, k), lambda v: v - k, None), ("x/k", K.binop("/", x, k), lambda v: v / k, None),
+             ("abs(x)", K.builtin("abs", x) if hasattr(K, "builtin") else K.method(x, "__abs__"), lambda v: K.ite(v >= 0, v, -v), None), ("+x", K.method(x, "__pos__"), lambda v: v, None)]
+    for label, r, f, _ in cases:
+        rs, rd = state(K, r)
+        want = K.cell_ite(K.cell_is_nan(a), lambda: K.nan_cell(), lambda f=f: K.real_cell(f(av)))
+        K.ensure(f"{label}: value by value on the same periods", K.cell_eq(V(K, rs, rd, t, c), want))
+        K.ensure(f"{label}: a new series", r is not x and not K.same_buffer(rd, K.attr(x, "data")))
+    nxs, nxd = state(K, x)
+    K.ensure("operand untouched", K.cell_eq(V(K, nxs, nxd, t, c), a))
